@@ -35,6 +35,9 @@ type expect struct {
 	handCLSeq         int  // op index of the last valid hand-set Content-Length (-1 none)
 	handCL            int  // its value
 	handTE            bool // Transfer-Encoding set by hand somewhere
+	delFraming        bool // Content-Length / Transfer-Encoding deleted by hand somewhere
+	delCLSeq          int  // op index of the last Header.Del("Content-Length") (-1 none)
+	negSize           bool // some SetBodyStream used a size <= -2
 	streamUnderNoBody bool // the final stream op ran while the status was 1xx/204/304
 
 	trailers []string
@@ -59,7 +62,7 @@ func allDigits(s string) bool {
 
 func predict(qi int, q *reqSpec) *expect {
 	e := &expect{status: 200, fields: map[string][]string{}, cookies: map[string]string{}, kind: "buf",
-		declared: -1, handCLSeq: -1, streamSeq: -1, method: q.Method}
+		declared: -1, handCLSeq: -1, delCLSeq: -1, streamSeq: -1, method: q.Method}
 	setBody := func(kind string, b []byte) {
 		e.kind, e.content = kind, b
 		e.dropPrefix, e.rawThenAppend, e.appendAfterStream = 0, false, false
@@ -96,6 +99,19 @@ func predict(qi int, q *reqSpec) *expect {
 			e.handCLSeq, e.handCL = oi, o.N
 		case "handte":
 			e.handTE = true
+		case "delhdr":
+			switch o.S {
+			case "Content-Length":
+				// the announced length is withdrawn by hand: which length then applies is not judged, framing is
+				e.handCLSeq, e.handCL = oi, -1
+				e.delCLSeq = oi
+				e.delFraming = true
+			case "Transfer-Encoding":
+				// the coding of an unknown-size body is fasthttp's business: the response must still be well framed
+				e.delFraming = true
+			case "Connection":
+				e.closeReq = false
+			}
 		case "handconn":
 			e.closeReq = o.S == "close"
 		case "connclose":
@@ -121,6 +137,11 @@ func predict(qi int, q *reqSpec) *expect {
 		case "stream":
 			setBody("stream", bodyBytes(qi, oi, o.L))
 			e.declared, e.produced = o.N, o.L
+			if o.N < 0 {
+				// doc: "If bodySize < 0, then bodyStream is read until io.EOF"
+				e.declared = -1
+				e.negSize = e.negSize || o.N < -1
+			}
 			e.streamSeq, e.streamUnderNoBody = oi, bodilessStatus(e.status)
 		case "writer":
 			b := writerBytes(qi, oi, o)
@@ -168,6 +189,14 @@ func (e *expect) sizeLost() bool {
 	return e.kind == "stream" && e.streamUnderNoBody && !e.bodiless()
 }
 
+// delCLOnStream is the narrow predicate of the finding "Header.Del(Content-Length)
+// after SetBodyStream: the stream is written as a fixed-size body (of zero bytes when
+// it was chunked) whose size the head no longer announces": the last word on
+// Content-Length after the stream that forms the body is a Del.
+func (e *expect) delCLOnStream() bool {
+	return e.kind == "stream" && e.handConflict() && e.delCLSeq == e.handCLSeq && !e.bodiless()
+}
+
 func (e *expect) isTrailer(name string) bool {
 	for _, t := range e.trailers {
 		if strings.EqualFold(t, name) {
@@ -213,6 +242,8 @@ func (e *expect) features() string {
 	flag(e.handCLSeq >= 0, "cl")
 	flag(e.handConflict(), "!")
 	flag(e.handTE, "te")
+	flag(e.delFraming, "df")
+	flag(e.negSize, "ns")
 	flag(e.closeReq, "cc")
 	flag(len(e.trailers) > 0, "tr")
 	flag(e.iflush, "if")
